@@ -187,10 +187,18 @@ def table_ops(rng, nrandom):
 # ---------------------------------------------------------------- parser streams (C07-C12, C14)
 
 def seeds_v3(rng, n):
-    """(level, version, tokens) seed vectors: all three levels, both versions, random omissions"""
+    """(level, version, tokens) seed vectors: all three levels, both versions, random omissions;
+    every third round of seeds spells out every metric of the level (longest vectors)"""
     out = []
     for i in range(n):
         L = i % 3
+        if (i // 3) % 3 == 2:
+            ms = vec.V3B + (vec.V3T if L >= 1 else []) + (vec.V3E if L >= 2 else [])
+            t = vec.toks(ms, vec.rand_vals(rng, ms))
+            if rng.chance(1, 2):
+                t = rng.shuffle(t)
+            out.append((L, rng.choice(vec.VERS3), t))
+            continue
         t = vec.toks(vec.V3B, vec.rand_vals(rng, vec.V3B))
         if L >= 1:
             for m in vec.V3T:
@@ -219,6 +227,8 @@ def edits_v3(ver, t, rng, heavy):
         yield mk(pre, t + [t[i]])                                      # duplicate at end
         name, _, val = t[i].partition(":")
         yield mk(pre, t + [name + ":" + rng.choice(vec.ALL_CODES)])    # duplicate with another value
+        yield mk(pre, t[:i] + ["ZZ:N"] + t[i:])                        # unknown metric name inserted here
+        yield mk(pre, t[:i] + [rng.choice(vec.ALL_NAMES) + ":" + rng.choice(vec.ALL_CODES)] + t[i:])
         for c in vec.ALL_CODES:                                        # every code anywhere in the library
             yield mk(pre, t[:i] + [name + ":" + c] + t[i + 1:])
         yield mk(pre, t[:i] + [name + ":" + val.lower()] + t[i + 1:])
